@@ -1,7 +1,9 @@
 import SpoxModel.Lemmas.Subgraph
+import SpoxModel.Lemmas.SubgraphNested
 import SpoxModel.Generated.SubgraphSpecs
 import SpoxModel.Generated.CallbackSites
 import SpoxModel.Generated.CallGraphData
+import SpoxModel.Generated.SubgraphInventory
 /-!
 # C19 — subgraph callbacks run exactly once, with the prescribed arguments
 
@@ -18,7 +20,7 @@ Two statements are false of the code as it is and are kept visible:
   `args_prescribed_scan_partial` (default / all-zero axes) + `scan_axes_counterexample`.
 -/
 namespace C19
-open Subgraph SubgraphSpec SubgraphLemmas
+open Subgraph SubgraphSpec SubgraphLemmas SubgraphNested SubgraphNestedLemmas
 open Generated.SubgraphSpecs
 
 /-! ## Obligations on the generated data -/
@@ -45,6 +47,33 @@ theorem modules_covered :
     resolves.all (fun r => table.any (fun e => e.1 == r.2.2 && e.2.1 == r.2.1)) = true
       ∧ (resolves.map (·.1)).eraseDups.all
           (fun m => ctorNames.all (fun c => resolves.any (fun r => r.1 == m && r.2.1 == c))) = true := by
+  decide
+
+/-- names of the callbacks a spec traces -/
+def tracedCallbacks (s : CtorSpec) : List String := s.subgraphs.map (·.1)
+
+/-- **Inventory of constructors, by signature.** Every top-level function of *every* opset module
+    (`ai.onnx` v17…v21 and `ai.onnx.ml`) that has a parameter annotated `Callable` or calls `subgraph` is
+    a row of `table` (so the theorems below speak about it), its `Callable` parameters are exactly the
+    callbacks its `subgraph(…)` calls trace (no callback parameter is ignored, nothing else is traced),
+    and `table` has no row that the inventory does not know. -/
+theorem callable_params_good :
+    Generated.SubgraphInventory.callableParams.all (fun e =>
+        table.any (fun t => t.1 == e.1 && t.2.1 == e.2.1
+          && e.2.2.all (fun p => (tracedCallbacks t.2.2).contains p)
+          && (tracedCallbacks t.2.2).all (fun p => e.2.2.contains p))) = true
+      ∧ table.all (fun t =>
+          Generated.SubgraphInventory.callableParams.any (fun e => e.1 == t.1 && e.2.1 == t.2.1)) = true := by
+  decide
+
+/-- **Attribute wiring.** In every constructor each subgraph traced from callback `X` is stored in the
+    node attribute `X` (`X=AttrGraph(<graph of X>, name="X")`), one attribute per traced callback. -/
+theorem attr_wiring_good :
+    Generated.SubgraphInventory.attrWiring.all (fun e =>
+        e.2.2.all (fun w => w.1 == w.2.1 && w.2.1 == w.2.2)
+          && table.any (fun t => t.1 == e.1 && t.2.1 == e.2.1
+              && (tracedCallbacks t.2.2).all (fun p => e.2.2.any (fun w => w.2.2 == p))
+              && e.2.2.length == (tracedCallbacks t.2.2).length)) = true := by
   decide
 
 /-- Call sites, other than `subgraph`, that could reach a stored callback — from the source. -/
@@ -398,6 +427,82 @@ theorem nested_results_typeerror (types : List Ty) (cb : Nat) (es : List ElemKin
 
 example : behaviourOfElems [.var, .seqOfVars] = .hasNonVar 2 ∧ behaviourOfElems [.var, .var, .var] = .returnsVars 3
     ∧ behaviourOfElems [] = .returnsVars 0 := by decide
+
+/-- **The `types` argument.** A well-formed `types` — whatever iterable — is `subgraph` on its elements;
+    a malformed one is a TypeError that leaves the world untouched (no argument Var created, the
+    callback not invoked). -/
+theorem types_arg_validated (ta : TypesArg) (cb : Nat) (beh : CbBehaviour) (w : World) :
+    (∀ ts, ta = .ok ts → subgraphEntry ta cb beh w = subgraphCall ts cb beh w)
+      ∧ ((∀ ts, ta ≠ .ok ts) → subgraphEntry ta cb beh w = (.error .typeError, w)
+          ∧ (subgraphEntry ta cb beh w).2.count cb = w.count cb) := by
+  cases ta <;> simp [subgraphEntry]
+
+/-! ## Nested control flow
+
+A callback may itself call control-flow constructors (with callbacks that do so again, …). `Tree` /
+`runForest` (`Model/SubgraphNested.lean`) is `subgraph` for such callbacks; the driver expands every
+constructor call of a nested program into its `subgraph` invocations with the specs generated from
+/repo and runs `runForest` side by side with the real constructors (tie H). Unbounded in depth and
+branching (mutual structural induction over the tree). -/
+
+/-- **Nested callbacks: the exact log.** Whatever the nesting depth, the log after the outermost call
+    is the old log plus one event per callback of the tree, depth first in program order (a body is
+    entered before the bodies of the constructors it calls), each with consecutive fresh argument ids
+    and exactly the types it was created with; nothing else is logged. -/
+theorem nested_args_prescribed (ts : List Tree) (w : World) :
+    (runForest ts w).events = (evsF ts w.fresh).reverse ++ w.events
+      ∧ (runForest ts w).fresh = w.fresh + nArgsF ts
+      ∧ (evsF ts w.fresh).map (fun e => (e.cb, e.types)) = sigsF ts :=
+  ⟨runForest_events ts w, runForest_fresh_counter ts w, evsF_sigs ts w.fresh⟩
+
+/-- **Nested callbacks are called once**: after the outermost constructor call and any sequence of
+    later steps (on a node that stores *every* callback of the tree), each callback — at any depth —
+    has been invoked exactly as often as it occurs in the tree. -/
+theorem nested_called_once (ts : List Tree) (w : World) (node : Node) (steps : List Step) (c : Nat) :
+    (runSteps cg node steps (runForest ts w)).count c = w.count c + (idsF ts).count c := by
+  rw [runSteps_safe cg _ callgraph_safe, runForest_count]
+
+/-- Distinct callback objects, none invoked before: each has been invoked exactly once. -/
+theorem nested_called_exactly_once (ts : List Tree) (w : World) (node : Node) (steps : List Step)
+    (hnd : (idsF ts).Nodup) (c : Nat) (hc : c ∈ idsF ts) (hnew : w.count c = 0) :
+    (runSteps cg node steps (runForest ts w)).count c = 1 := by
+  rw [nested_called_once, hnew, hnd.count]; simp [hc]
+
+/-- Argument Vars stay fresh (pairwise distinct, distinct from all earlier ones) under nesting. -/
+theorem nested_args_fresh (calls : List (List Tree)) :
+    Fresh (calls.foldl (fun w ts => runForest ts w) ⟨[], 0⟩) := by
+  suffices h : ∀ w, Fresh w → Fresh (calls.foldl (fun w ts => runForest ts w) w) from h _ fresh_init
+  induction calls with
+  | nil => intro w hw; exact hw
+  | cons c rest ih => intro w hw; exact ih _ (runForest_fresh c w hw)
+
+/-- The flat model is the special case of leaves: a successful constructor call (`construct`) leaves
+    exactly the world of the forest of its callbacks-as-leaves. -/
+theorem nested_extends_flat (spec : CtorSpec) (env : Env) (cbs : Callbacks) (w w1 : World) (node : Node)
+    (h : construct spec env cbs w = (.ok node, w1)) :
+    w1 = runForest (leavesOf env cbs spec.subgraphs) w := by
+  unfold construct at h
+  generalize hrs : runSubgraphs env cbs spec.subgraphs w = r at h
+  obtain ⟨res, w'⟩ := r
+  cases res with
+  | error err => simp at h
+  | ok gs =>
+    simp only at h
+    cases hl : lookupGraph gs spec.outGraph with
+    | none => simp [hl] at h
+    | some g =>
+      simp only [hl, Prod.mk.injEq] at h
+      rw [← h.2]
+      exact runSubgraphs_forest env cbs _ _ _ _ hrs
+
+/-- Non-vacuity: a Loop body (callback 0, 3 arguments) containing an If (callbacks 1, 2) whose
+    else-branch contains a Scan (callback 3, 2 arguments): four events, depth first, consecutive ids. -/
+example :
+    let t : Tree := .node 0 [(f32 []).ty, (f32 []).ty, (f32 [2]).ty] 3
+      [.node 1 [] 1 [.node 3 [(f32 []).ty, (f32 [2]).ty] 2 []], .node 2 [] 1 []]
+    (runForest [t] ⟨[], 0⟩).events.reverse.map (fun e => (e.cb, e.args)) = [(0, [0, 1, 2]), (1, []), (3, [3, 4]), (2, [])]
+      ∧ (idsF [t]).Nodup ∧ (runForest [t] ⟨[], 0⟩).count 3 = 1 := by
+  decide
 
 /-! ## Non-vacuity -/
 
